@@ -30,11 +30,14 @@ pub struct Plan {
     pub max_recv: usize,
     /// harness policy: probability (of 8) that a received guard is retained once
     pub retain_p: u32,
+    /// values whose fresh emplacement did not validate in its own buffer (value, size())
+    #[serde(skip)]
+    pub anomalies: Vec<(Val, usize)>,
 }
 
 /// Build `v` (optionally default / tweaked) in `buf` exactly as the sender party will, and
 /// report (size, whole-value-validates).  Panics inside library code are caught by the caller.
-fn build_in<M: ZooMsg + ?Sized>(buf: &mut [u8], mp: &MsgPlan) -> Result<(usize, bool, Val), flatty::Error> {
+pub fn build_in<M: ZooMsg + ?Sized>(buf: &mut [u8], mp: &MsgPlan) -> Result<(usize, bool, Val), flatty::Error> {
     let (size, val) = {
         let m: &mut M = if mp.use_default { M::default_in_place(buf)? } else { M::new_in_place(buf, emp::<M>(&mp.val))? };
         if !mp.tweaks.is_empty() {
@@ -91,6 +94,7 @@ pub fn make_plan<M: ZooMsg + ?Sized>(d: &mut Decider, stats: &mut Stats, nspec: 
     let cap = 2 * max_send.max(M::MIN_SIZE);
     let mut scratch = AlignedBytes::new(cap, M::ALIGN);
     let mut msgs = Vec::with_capacity(n_msgs);
+    let mut anomalies: Vec<(Val, usize)> = Vec::new();
     for _ in 0..n_msgs {
         scratch.fill(0xA5);
         let scale = [2usize, 8, 40, 260][d.weighted(St::Msgs, &[3, 4, 3, 1])];
@@ -120,7 +124,12 @@ pub fn make_plan<M: ZooMsg + ?Sized>(d: &mut Decider, stats: &mut Stats, nspec: 
                         chosen = Some((mp, size));
                         break;
                     }
-                    Ok(Ok((_, false, _))) => stats[P::producer_left_invalid_message as usize] += 1,
+                    Ok(Ok((size, false, _))) => {
+                        stats[P::producer_left_invalid_message as usize] += 1;
+                        if anomalies.len() < 4 {
+                            anomalies.push((mp.val.clone(), size));
+                        }
+                    }
                     Err(Caught::Panic(..)) => stats[P::producer_panicked as usize] += 1,
                     _ => {}
                 }
@@ -191,7 +200,7 @@ pub fn make_plan<M: ZooMsg + ?Sized>(d: &mut Decider, stats: &mut Stats, nspec: 
     let rx = [0usize, 1, M::ALIGN, longest, 3, 100];
     let max_recv = longest + rx[d.weighted(St::Cfg, &[4, 2, 2, 2, 1, 1])];
     let retain_p = [0u32, 1, 3][d.weighted(St::Cfg, &[3, 1, 1])];
-    Plan { type_name: M::NAME, align: M::ALIGN, min_size: M::MIN_SIZE, msgs, max_send, max_recv, retain_p }
+    Plan { type_name: M::NAME, align: M::ALIGN, min_size: M::MIN_SIZE, msgs, max_send, max_recv, retain_p, anomalies }
 }
 
 /// What the harness does after a failed `send()` / `recv()` (seeded policy).
